@@ -96,7 +96,7 @@ func scenario(r *ev.Run, sc int) {
 	world.StartLog()
 	nops := 8 + rng.Intn(12)
 	bounds := []int{0} // write-log length after each op
-	so := hist.StepOpts{Reopen: true, Pool: true, Mine: true, Truncate: true}
+	so := hist.StepOpts{Reopen: true, Pool: true, Mine: true, Truncate: true, Engine: true}
 	script := []func() hist.Op{}
 	if scripted {
 		// warm caches, the longer branch arrives last: the switch rewrites both branches in one confirmation
